@@ -10,7 +10,7 @@ import translate_tags
 PROPERTY = 'C09'
 LEAN_MODULES = ['YatimlModel.Props.C09']
 THEOREMS = ['YatimlModel.C09.' + t for t in [
-    'C09_bool_iff', 'C09_float_iff', 'C09_bool_iff_plain', 'C09_float_iff_plain',
+    'C09_bool_iff', 'C09_float_iff', 'C09_bool_iff_plain', 'C09_float_iff_plain', 'C09_bool_iff_lang', 'C09_float_iff_lang',
     'C09_bool_constructs', 'C09_float_constructs', 'C09_yaml11_not',
     'C09_positive_instances', 'C09_other_tags_unchanged']]
 RULE = ('strings: all strings up to a length bound over the number/boolean alphabet, every '
